@@ -4,7 +4,6 @@ package bufimagemodify
 
 import (
 	"github.com/bufbuild/buf/private/bufpkg/bufconfig"
-	"github.com/bufbuild/buf/private/bufpkg/bufimage"
 	"google.golang.org/protobuf/types/descriptorpb"
 )
 
@@ -159,7 +158,12 @@ func VerifLemma_C18B_OverridePrecedence() {
 	verifCover("computed")
 	verifAssert(err == nil, "stringOverrideFromConfig: no error for a validated config")
 	want := refStringOverride(f, drecs, orecs, def, t)
-	verifAssert(got == want, "stringOverrideFromConfig follows the documented precedence (disable > value/prefix/suffix by order)")
+	// compare what the triple MEANS (a value wins over prefix/suffix; otherwise prefix and suffix), not its representation
+	if want.value != "" {
+		verifAssert(got.value == want.value, "stringOverrideFromConfig follows the documented precedence (disable > value/prefix/suffix by order)")
+	} else {
+		verifAssert(got.value == "" && got.prefix == want.prefix && got.suffix == want.suffix, "stringOverrideFromConfig: prefix and suffix follow the documented precedence")
+	}
 }
 
 // VerifLemma_C18B_JavaPackage: modifyJavaPackage end to end. Expected java_package:
@@ -214,10 +218,10 @@ func VerifLemma_C18B_JavaPackage() {
 	if !untouched {
 		verifCover("value rewritten")
 		verifAssert(f.fdp.Options != nil && f.fdp.Options.JavaPackage != nil && *f.fdp.Options.JavaPackage == want, "java_package: value override, else [prefix.]package[.suffix]")
-		verifAssert(len(sw.paths) == 1 && vPathIs(sw.paths[0], []int32{8, 1}) && sw.files[0] == bufimage.ImageFile(f), "java_package: exactly [8,1] is marked when rewritten")
+		verifAssert(vMarksOnly(sw, f.Path(), []int32{8, 1}), "java_package: exactly [8,1] is marked when rewritten")
 	} else {
 		verifCover("value kept")
-		verifAssert(f.fdp.Options == snap.options && (f.fdp.Options == nil || f.fdp.Options.JavaPackage == oldPtr), "java_package: untouched when disabled / preserved / no package / already equal")
+		verifAssert(vOptionsPresenceKept(snap, f.fdp) && vGovernedKept(snap, f.fdp, bufconfig.FileOptionJavaPackage), "java_package: untouched when disabled / preserved / no package / already equal")
 		verifAssert(len(sw.paths) == 0, "java_package: nothing marked when nothing is rewritten")
 	}
 	verifAssert(vFrameOK(snap, f.fdp), "java_package: every other descriptor field is unchanged")
